@@ -72,6 +72,9 @@ def run(ctx):
         raise ToolError(f"specification and CPython disagree on {disagreements} cases: the reference semantics needs repair")
     progs = [case_src(i, c) for i, c in enumerate(cases)]
     results = compile_and_run(vh, progs, d, jobs=14)
+    # the compile-time value itself: the singleton type the checker gives N (`erg --mode typecheck`)
+    trecs = [{"id": i, "src": f"N{i} = {expr_of(c)}\n", "mode": "check", "hir": True} for i, c in enumerate(cases)]
+    tres = {o["id"]: o for o in vh_all(vh, "check", trecs, jobs=14, env=env)}
     d2 = scratch("c04r")
     rresults = compile_and_run(vh, [runtime_src(i, c) for i, c in enumerate(cases)], d2, jobs=14)
     diagnosed = accepted = judged = 0
@@ -116,6 +119,24 @@ def run(ctx):
         if rval is None:
             ctx.add("runtime_side_failed")
             continue
+        # compile-time value from the inferred singleton type
+        m = re.search(r"::N%d\(: \{([^{}]*)\}\)" % i, (tres.get(i) or {}).get("hir") or "")
+        if m and "," not in m.group(1) and ".." not in m.group(1) and c["vt"] not in ("skip", "oracle-disagree"):
+            ctx.add("singleton_types_compared")
+            tval = m.group(1).strip()
+            same = tval == rval
+            if not same:
+                try:
+                    same = float(tval) == float(rval) and ("." in tval) == ("." in rval)
+                except ValueError:
+                    same = False
+            if not same:
+                agree = c["vt"] not in ("skip", "oracle-disagree") and c["val"] == rval
+                ctx.violation({"kind": "compile-time-value-differs", "op": c["op"], "types": [c["lt"], c["rt"]]},
+                              {"expr": expr, "compile_time_type": "{" + tval + "}", "run_time": rval, "spec": c["val"], "python": c["py"],
+                               "oracles_agree_with_run_time": agree},
+                              f"`{expr}`: the checker assigns the singleton type {{{tval}}} but the run-time value is {rval} (spec {c['val']}, CPython {c['py']})")
+                continue
         if cval != rval:
             agree = c["vt"] not in ("skip", "oracle-disagree") and c["val"] == rval
             ctx.violation({"kind": "compile-time-value-differs", "op": c["op"], "types": [c["lt"], c["rt"]]},
